@@ -9,6 +9,12 @@ CLAIMS = {
  "C07": dict(text="Lean 4 theorems over the model of MemoryManager::commit (both branches with their slice-length checks, the doubling loop): commit never panics under the bookkeeping invariant, appends exactly the new bytes, keeps every committed byte (commit_appends), the capacity is the least doubling above the need (growCap_*), and for every history of emits/aligns/commits the buffer is what was emitted before the last commit and offset = bytes emitted (history_tracks, by induction over the history). Tied to the real Assembler by the asm correspondence stream with commit totals on/around 1x,2x,4x capacity and by direct evaluation of the property on the implementation's buffers (reader lock held since construction, fresh reader, ptr(), finalize).",
    note="Trusted: Lean kernel (no bv_decide), harness/rt, copy primitives modelled as list operations; mapping addresses are environment inputs; position-dependent fields are C12.",
    tech="Lean 4 proof (invariant by induction over histories) + differential correspondence + direct property evaluation on implementation outputs"),
+ "C10": dict(text="Lean 4 theorems over the Modifier model: each emission overwrites exactly the bytes at the cursor and advances it (emit_writes_at_cursor), an emission succeeds iff it fits - otherwise it is reported, never partially applied with a normal return (emission_fits_or_reported), check/check_exact report exactly cursor > o / cursor != o, a whole session of gotos and emissions changes only written offsets (session_frame, induction over the session), and the session end changes at most the fields of the session's relocations, on success and on error (session_end_frame). Label resolution inside sessions is the shared Core (C01). Tied to the real Modifier by the asm stream (closure driven line by line) and a python overlay evaluation of the implementation's buffers, including overruns by 1..5 bytes on every emission path.",
+   note="Trusted: Lean kernel, harness/rt. A Rust panic counts as 'reported'. Holds after fix 809321e (Modifier::extend).",
+   tech="Lean 4 proof (frame lemmas by induction over session operations) + differential correspondence + direct property evaluation"),
+ "C11": dict(text="Lean 4 theorems: a commit that fails on a label defect or impossible relocation leaves the executable memory untouched and keeps the pending bytes (failed_commit_keeps_memory/_pending_length); however an alter session ends, the buffer is back in the lock with its full length, the memory-manager invariant holds and committed bytes outside the session's own relocation fields are as the session left them (session_end_restores); no relocation of a session survives it (session_end_drains); with the invariant and well-placed pending relocations a commit never panics (commit_never_panics, via C07.commit_appends). Tied by the asm stream with fault injection (every C06 defect class in commits and sessions after >= 1 successful commit, then further operations) under catch_unwind, plus direct evaluation (no panic/poison/empty buffer after an error, committed bytes intact).",
+   note="Trusted: Lean kernel, harness/rt. Holds after fixes df79a3c and 5429107. commit_never_panics is stated for position-independent relocations (x64/aarch64/riscv); managed (x86) adjustment is C12. A panic inside the user's closure poisons the lock by design.",
+   tech="Lean 4 proof (error steps preserve the memory invariant; frame lemmas) + fault-injection correspondence + direct property evaluation"),
  "C16": dict(text="Lean 4 theorems: after a successful take/drain the VecAssembler model state is literally new(base) (take_resets, drain_resets, run_after_take_eq_fresh); a label-free program gives the same bytes on the vector assemblers and on the executable assembler under every commit partition and every mapping address (exec_agrees_with_vec via C07.history_tracks); UncommittedModifier emission lemma. The three label front-ends share one Core in the model; each Rust implementation is tied to it by the asm correspondence stream, and bytes are compared implementation-to-implementation across front-ends, 4 commit partitions and reuse chains.",
    note="Trusted: Lean kernel, harness/rt. Label programs across front-ends: proof covers the shared Core + per-front-end correspondence, byte agreement itself is checked by execution (partial for labelled programs).",
    tech="Lean 4 proof (state equality / refinement to a scanning spec) + differential correspondence + cross-front-end comparison"),
